@@ -20,7 +20,7 @@ SPEC = {
 }
 
 TEXT = {
-    "technique": "rapid + native fuzz differential against math/big Elligator 2 map, inverse-existence predicate, RFC 7748 ladder and affine/extended Edwards coset arithmetic",
+    "technique": "rapid + native fuzz differential against math/big Elligator 2 map, inverse-existence predicate, RFC 7748 ladder and affine/extended Edwards coset arithmetic; concurrent calls compared with sequential results (-race in thorough)",
     "engine": "rapid + go test -fuzz (in-package harness in internal/x25519ell2 and common/ntor) + verifkit/refx",
     "level_text": ("Exploration. For generated private keys (structured and uniform, every value of the low three bits) and all tweak values, "
                    "the ok/no-representative answer must equal the reference predicate on the dirty public key computed with math/big "
